@@ -488,7 +488,8 @@ func spell(t *rapid.T, p string, dir bool) string {
 		}
 		s += el
 	}
-	s = rapid.SampledFrom([]string{"", "", "", "./", "/", "././"}).Draw(t, "prefix") + s
+	// every prefix below cleans (path.Clean, then the leading slash dropped) to the same rooted name
+	s = rapid.SampledFrom([]string{"", "", "", "./", "/", "././", "//", "///", "/./", "/.//", ".//"}).Draw(t, "prefix") + s
 	if dir && rapid.IntRange(0, 2).Draw(t, "slash") != 0 {
 		s += "/"
 	}
